@@ -34,6 +34,14 @@ func main() {
 		debugExtents(os.Args[2:])
 		return
 	}
+	if id == "retglobals" {
+		debugRetGlobals(os.Args[2:])
+		return
+	}
+	if id == "effects" && len(os.Args) > 2 {
+		debugEffects(os.Args[2:])
+		return
+	}
 	if id == "guards" && len(os.Args) > 2 {
 		debugGuards(os.Args[2:])
 		return
